@@ -264,6 +264,7 @@ PARTS = {
     "transition": oracle_transition,
     "cartpole_traj": oracle_cartpole_traj,
     "initial": oracle_initial,
+    "mj_boundary": _mj("mj_boundary"),
     "mj_reset": _mj("mj_reset"),
     "mj_step": _mj("mj_step"),
     "mj_model": _mj("mj_model"),
